@@ -299,7 +299,7 @@ def gen_matrix_case(rng):
         k = rng.randrange(len(rows))
         rows[k] = rows[k] + "1" if rng.random() < 0.5 or len(rows[k]) == 1 else rows[k][:-1]
         return {"kind": "m", "gen": "ragged", "rows": rows}
-    return {"kind": "m", "gen": kind, "rows": to_rows(m)}
+    return {"kind": "m", "gen": kind, "rows": to_rows(m), "hist": rng.random() < 0.25}
 
 
 # ---- large grids (size thresholds 9/10, 15/16/17, 31/32/33) ----
@@ -478,7 +478,7 @@ def gen_long_case(rng):
         m = m[::-1]
     if k & 2:
         m = [list(col) for col in zip(*m)]
-    return {"kind": "m", "gen": f"large/long{L}/{pert}", "rows": to_rows(m)}
+    return {"kind": "m", "gen": f"large/long{L}/{pert}", "rows": to_rows(m), "hist": rng.random() < 0.5}
 
 
 def gen_huge_case(rng):
@@ -486,14 +486,14 @@ def gen_huge_case(rng):
     m, tag = gen_large_matrix(rng, 70, [63, 64, 65, 33, 17])
     if rng.random() < 0.5:
         m = [list(col) for col in zip(*m)]
-    return {"kind": "m", "gen": tag, "rows": to_rows(m)}
+    return {"kind": "m", "gen": tag, "rows": to_rows(m), "hist": rng.random() < 0.5}
 
 
 def gen_large_case(rng):
     m, tag = gen_large_matrix(rng)
     if rng.random() < 0.5:       # the code treats rows and columns by two different routes (transposed table)
         m = [list(col) for col in zip(*m)]
-    return {"kind": "m", "gen": tag, "rows": to_rows(m)}
+    return {"kind": "m", "gen": tag, "rows": to_rows(m), "hist": rng.random() < 0.5}
 
 
 # ---- matrices as text ----
@@ -925,11 +925,20 @@ def run_impl(case):
             s = Strop(" ".join(case["rows"]) if case["kind"] == "m" else "".join(chr(c) for c in case["text"]))
         except AssertionError as e:
             return {"v": None, "why": str(e)}
-        inst = []
-        for t in s.instances():
-            inst.append([[r.rows.low, r.rows.high, r.columns.low, r.columns.high] for r in t.rectangles()])
-        inst.sort(key=lambda rs: rs[0] if rs else [])
-        return {"v": inst, "is": bool(s.is_strop)}
+        def listing():
+            inst = [[[r.rows.low, r.rows.high, r.columns.low, r.columns.high] for r in t.rectangles()]
+                    for t in s.instances()]
+            inst.sort(key=lambda rs: rs[0] if rs else [])
+            return inst
+        obs = {}
+        if case.get("hist"):      # pre-exercised object: list, print every instance, list again
+            obs["v0"] = listing()
+            for t in s.instances():
+                str(t)
+                list(t.rectangles("B"))
+        obs["v"] = listing()
+        obs["is"] = bool(s.is_strop)
+        return obs
     import numpy as np
     from frame.geometry.geometry import Point
     from tools.floorset_parser.floor_set_manager.utils.utils import strop_decomposition, is_point_inside_polygon
@@ -1051,7 +1060,7 @@ def oracle(case, obs):
             return f"is_strop is False but a single-trunk decomposition exists (trunk rows {t[0]}..{t[1]}, columns {t[2]}..{t[3]})"
         if obs["is"] != (len(obs["v"]) > 0):
             return "is_strop disagrees with the list of instances"
-        for rs in obs["v"]:
+        for rs in obs["v"] + (obs["v0"] if obs.get("v0", obs["v"]) != obs["v"] else []):
             p = check_instance(rows, [tuple(x) for x in rs])
             if p:
                 return f"offered instance with trunk {rs[0] if rs else None}: {p}"
@@ -1294,7 +1303,7 @@ def run(ctx, out, replay=None):
         nrand, npoly, ngpoly, nbig, nprobe, ninside, nlarge, ntext, nhuge, nlong = 3000, 300, 500, 40, 8, 200, 400, 400, 16, 12
     else:
         cheap = list(exhaustive_cases(16, 16))
-        nrand, npoly, ngpoly, nbig, nprobe, ninside, nlarge, ntext, nhuge, nlong = 40000, 3000, 5000, 400, 80, 3000, 5000, 5000, 200, 120
+        nrand, npoly, ngpoly, nbig, nprobe, ninside, nlarge, ntext, nhuge, nlong = 40000, 3000, 3000, 200, 60, 3000, 3000, 3000, 100, 60
     cheap += [gen_matrix_case(rng) for _ in range(nrand)]
     cheap += [gen_text_case(rng) for _ in range(ntext)]
     heavy = [gen_large_case(rng) for _ in range(nlarge)]
